@@ -430,6 +430,16 @@ def t_config_output(sess, assemblage):
             sess.prove(f"{pt}: '{key}' defaults to all simulated phases when omitted", list(p.pc) + [absent(key)], z3.BoolVal(tuple(out[key]) == phases))
         sess.prove(f"{pt}: 'paths' defaults to None and 'log_level' to WARNING when omitted", list(p.pc), z3.And(
             z3.Implies(absent("paths"), z3.BoolVal(out["paths"] is None)), z3.Implies(absent("log_level"), z3.BoolVal(out["log_level"] == "WARNING"))))
+        name = f"{pt}: user-supplied output 'paths' are kept when the input section has no pathline input"
+        q = sess.prove(name, list(p.pc) + [z3.Not(absent("paths"))], z3.BoolVal(out["paths"] == ["p.scsv"]))
+        if not q.holds:
+            ce = {"name": name, "case": {}, "cls": {"kind": "user-supplied output paths discarded"}}
+            if "paths" not in reported:
+                reported["paths"] = name
+                ce["replay"] = "vf.props.C19:replay_output_paths"
+            else:
+                ce["same_as"] = reported["paths"]
+            sess.cex.append(ce)
         sess.prove(f"{pt}: 'anisotropy' has a default when omitted and an output directory is always set", p.pc,
                    z3.BoolVal(out.get("anisotropy") is not None and out.get("directory") is not None))
     if not reached:
@@ -467,3 +477,29 @@ def t_config_input(sess):
             z3.Implies(z3.Not(f["timestep"]), z3.BoolVal(isinstance(ts, float) and ts != ts)),
             z3.Implies(z3.Not(f["strain_final"]), z3.BoolVal(sf == float("inf"))),
             z3.Implies(f["timestep"], z3.BoolVal(ts == 2.5)), z3.Implies(f["strain_final"], z3.BoolVal(sf == 3))))
+
+
+def default_cex(name):
+    """Generic public-API replay for verdicts that carry no more specific counterexample."""
+    return {"replay": "vf.props.replays:c19_config", "case": {}, "cls": {"kind": "configuration / parameter record deviates from what it declares"}}
+
+
+def replay_output_paths(case):
+    import os
+    import tempfile
+
+    import pydrex.io as pio
+
+    d = tempfile.mkdtemp(prefix="c19_")
+    with open(os.path.join(d, "start.scsv"), "w") as f:
+        f.write("---\nschema:\n  delimiter: ','\n  missing: '-'\n  fields:\n    - name: X\n      type: float\n      fill: NaN\n---\nX\n1.0\n")
+    with open(os.path.join(d, "c.toml"), "w") as f:
+        f.write('[input]\nvelocity_gradient = ["simple_shear_2d", "Y", "X", 5e-6]\nlocations_initial = "start.scsv"\ntimestep = 1e9\n[output]\npaths = ["pathline001.scsv"]\n')
+    cwd = os.getcwd()
+    os.chdir(d)
+    try:
+        cfg = pio.parse_config("c.toml")
+    finally:
+        os.chdir(cwd)
+    got = cfg["output"]["paths"]
+    return {"reproduced": got != ["pathline001.scsv"], "detail": {"output.paths": got, "input.paths": cfg["input"].get("paths")}}
